@@ -115,6 +115,12 @@ def observe(conv_cls, sig, pl):
         conv = conv_cls(fn)
     except ValueError as e:
         return [1], f"declaration refused: {e}"
+    return observe_conv(conv, fn, seen, sig, pl)
+
+
+def observe_conv(conv, fn, seen, sig, pl):
+    """One message through an existing converter (a converter lives as long as its actor's registration)."""
+    del seen[:]
     data = "" if pl is None else json.dumps({f"p{k}": v for k, v in pl})
     deps = {f"p{p['name']}": 7000 + p["name"] for p in sig if p["dep"] and p["kind"] in ("pk", "ko")}
     if set(conv.dependencies) != set(deps):
@@ -233,10 +239,36 @@ def run(ctx: Ctx) -> Result:
                 per_sig_obs[(si, json.dumps(pl), cname)] = obs
                 for kind, what in oracle(sig, pl, cname, obs, detail):
                     res.failures.append(Failure(kind, what, meta[-1], detail if isinstance(detail, str) else obs))
-            # converters agree on signatures both accept
+            # converters agree on signatures both accept (below); first, a converter serves many messages: what one
+            # message binds must not depend on the messages before it
             b, p_ = per_sig_obs.get((si, json.dumps(pl), "basic")), per_sig_obs.get((si, json.dumps(pl), "pydantic"))
             if b and p_ and b[0] != 1 and p_[0] != 1 and b != p_:
                 res.failures.append(Failure("converters_disagree", f"basic {b} vs pydantic {p_}", {"sig": sig, "payload": pl}))
+    # one long-lived converter per (signature, converter class): every payload again, in two orders
+    for si, sig in enumerate(sigs):
+        pls = None
+        for cname, (cls, cterm) in convs.items():
+            if cname == "default":
+                continue
+            seen: list = []
+            fn, _src = make_fn(sig, seen)
+            try:
+                conv = cls(fn)
+            except ValueError:
+                continue
+            keys = [k for k in per_sig_obs if k[0] == si and k[2] == cname]
+            order = keys + keys[::-1]
+            for k in order:
+                pl = json.loads(k[1])
+                pl = None if pl is None else [tuple(x) for x in pl]
+                obs, detail = observe_conv(conv, fn, seen, sig, pl)
+                res.evaluations += 1
+                res.count("long_lived_converter_messages")
+                if obs != per_sig_obs[k]:
+                    res.failures.append(Failure("converter_keeps_state_between_messages",
+                                                f"{cname}: payload {pl} binds {obs} after earlier messages, {per_sig_obs[k]} on a fresh converter",
+                                                {"sig": sig, "payload": pl, "converter": cname, "sequence": [json.loads(x[1]) for x in order]}))
+                    break
     # return values: the encoded return value decodes to the value returned (a test, not a theorem)
     vals = [0, -1, 1.5, "x", "", None, True, [1, [2, {"a": None}]], {"k": [1, 2, {"z": "é"}]}, {"a": {"b": {"c": []}}}]
     async def ret(): ...
